@@ -13,7 +13,7 @@ func template(r *vh.RNG) *Scenario {
 		scn.Mailbox = "GlobalOrderedLockFree"
 	}
 	tell := func(t, n int) Label { return Label{K: "tell", T: t, N: n} }
-	switch r.Intn(3) {
+	switch r.Intn(5) {
 	case 0:
 		// all-for-one: the root restarts ALL its children when A (token 1) fails; B (token 2) is healthy, has a child
 		// (token 3) and traffic in flight while it waits for that child during its restart
@@ -32,6 +32,29 @@ func template(r *vh.RNG) *Scenario {
 			{Victim: "resume"},
 		}
 		scn.Exts = []Label{{K: "spawn", T: 0, R: 0}, tell(1, 1), tell(1, 0), tell(1, 2), {K: "term", T: 1, G: r.Bool()}, tell(1, 3), tell(2, 1)}
+	case 3:
+		// a watch request for the address of a child that is spawned afterwards: the immediate answer ("no such actor")
+		// must not make the parent forget the child
+		scn.Roles = []Role{
+			{Victim: "resume", Sup: []string{"stop"}, Rules: []Rule{{On: "L", N: -1, Inst: -1, Do: []Action{{K: "watch", T: 1}, {K: "spawn", T: 1, R: 1}}},
+				{On: "P", N: 0, Inst: -1, Do: []Action{{K: "watch", T: 2}}}, {On: "P", N: 1, Inst: -1, Do: []Action{{K: "spawn", T: 2, R: 2}}}}},
+			{Victim: "resume", Rules: []Rule{{On: "P", N: 0, Inst: -1, Do: []Action{{K: "reply", N: 1}}}}},
+			{Victim: "resume"},
+		}
+		scn.Exts = []Label{{K: "spawn", T: 0, R: 0}, tell(0, 0), tell(1, 0), tell(0, 1), tell(2, 1), {K: "term", T: 0, G: r.Bool()}, tell(1, 2)}
+	case 4:
+		// children spawned from inside the termination handlers (OnTerminate: they are stopped with the others;
+		// OnTerminated: finding C05-spawn-in-own-onterminated-leaks-child)
+		on := "T"
+		if r.Bool() {
+			on = "TS"
+		}
+		scn.Roles = []Role{
+			{Victim: "resume", Sup: []string{"stop"}, Rules: []Rule{{On: "L", N: -1, Inst: -1, Do: []Action{{K: "spawn", T: 1, R: 1}}}}},
+			{Victim: "resume", Rules: []Rule{{On: on, N: -1, Inst: -1, Do: []Action{{K: "spawn", T: 2, R: 2}}}}},
+			{Victim: "resume"},
+		}
+		scn.Exts = []Label{{K: "spawn", T: 0, R: 0}, tell(1, 0), {K: "term", T: 1, G: r.Bool()}, tell(1, 1), tell(2, 0)}
 	default:
 		// watch requests racing with a termination: two observers, one of them the parent
 		scn.Roles = []Role{
